@@ -222,6 +222,19 @@ def rule_choices(run):
             guard = [anc for anc in gen.parents.ancestors(c) if isinstance(anc, ast.If)]
             if any(any(isinstance(r, ast.Return) and isinstance(r.value, ast.Constant) and r.value.value is False for r in ast.walk(g)) for g in guard):
                 dup = True
+    # the choices are collected in a map keyed by IDENTITY: one object used in two patterns (an enumerator) is a single
+    # entry there, so the number of entries is compared with the number of branches as well
+    mp = cb.node.args.args[0].arg if cb.node.args.args else None
+    cnt = False
+    for c in ast.walk(cb.node):
+        if isinstance(c, ast.Compare) and len(c.ops) == 1 and isinstance(c.ops[0], (ast.NotEq, ast.Lt, ast.Eq)):
+            sides = [c.left, c.comparators[0]]
+            if any(isinstance(x, ast.Call) and dotted(x.func) == "len" and x.args and dotted(x.args[0]) == mp for x in sides) and all(isinstance(x, ast.Call) and dotted(x.func) == "len" for x in sides):
+                g = [anc for anc in gen.parents.ancestors(c) if isinstance(anc, ast.If)]
+                if isinstance(c.ops[0], ast.Eq) or any(any(isinstance(r, ast.Return) and isinstance(r.value, ast.Constant) and r.value.value is False for r in ast.walk(x)) for x in g):
+                    cnt = True
+    run.ob(cnt, "try_gen_case_when.check_branches", file=gen.rel, line=cb.node.lineno, detail="distinct-objects", expected="len(<identity map of choices>) is compared with the number of branches (the same object in two patterns is one map entry)",
+           found="ok" if cnt else "never compared: `case St.A` twice is one entry of the identity map and is emitted as two identical `when A` choices")
     run.ob(dup, "try_gen_case_when.check_branches", file=gen.rel, line=cb.node.lineno, detail="distinct-choices", expected="equal constant choices make the chain ineligible for a case statement (fall back to if/else)", found="ok" if dup else "choices are never compared: `case \"00\"` twice is emitted as two identical `when` choices")
     s = m.func("SelectWith.write")
     # abstract evaluation on the two-point domain default in {None, value}
